@@ -50,10 +50,10 @@ def gen_api_case(tier, seed, k):
             for _ in range(rnd.randint(1, 3)):
                 if rnd.random() < 0.5:
                     lst = rnd.sample(range(m.nrows), rnd.randint(1, min(3, m.nrows)))
-                    L += ["pivotin_row p0 %d %s" % (len(lst), " ".join(map(str, lst))), "tableau p0", "tableau_direct p0"]
+                    L += ["pivotin_row p0 %d %s" % (len(lst), " ".join(map(str, lst))), "get_basis_array p0", "tableau p0", "tableau_direct p0"]
                 elif m.ncols:
                     lst = rnd.sample(range(m.ncols), rnd.randint(1, min(3, m.ncols)))
-                    L += ["pivotin_col p0 %d %s" % (len(lst), " ".join(map(str, lst))), "tableau p0", "tableau_direct p0"]
+                    L += ["pivotin_col p0 %d %s" % (len(lst), " ".join(map(str, lst))), "get_basis_array p0", "tableau p0", "tableau_direct p0"]
     return run.Case("C13-api-%d" % k, L, dict(kind="api", mode=mode)), m
 
 
@@ -111,6 +111,7 @@ def judge_api(case, res, m):
     n = 0
     run_since = 0
     mx = {}
+    lastbas = None
     for ev in res.events:
         op = ev["op"]
         lu = ev.get("lu_mpq")
@@ -121,6 +122,17 @@ def judge_api(case, res, m):
             C["lu-singular-factor"] = C.get("lu-singular-factor", 0) + lu["sing"]
             C["lu-update-errors"] = C.get("lu-update-errors", 0) + lu["err"]
             mx["max_updates_between_factorizations"] = max(mx.get("max_updates_between_factorizations", 0), lu["maxrun"])
+        if op == "get_basis_array" and ev.get("rc") == 0:
+            lastbas = ev
+        if op in ("tableau", "tableau_direct") and ev.get("rc") == 0 and lastbas is not None and "order" in ev:
+            # the stored basis (QSget_basis_array) and the working basis (QSget_basis_order) name the same basic set, also after a
+            # pivot-in request that could be carried out in part only
+            want = set(j for j, ch in enumerate(lastbas["cstat"]) if ch == "1") | set(m.ncols + i for i, ch in enumerate(lastbas["rstat"]) if ch == "1")
+            got = set(ev["order"])
+            if want != got and len(got) == m.nrows:
+                V.append(("C13|pivotin|stored-basis-differs-from-working-basis", "QSget_basis_array says basic set %s, QSget_basis_order %s" % (sorted(want), sorted(got))))
+                break
+            lastbas = None
         if op in ("tableau", "tableau_direct"):
             bad = check_tableau(m, ev)
             if bad is None:
